@@ -961,10 +961,10 @@ fn gen_random(path: &str) {
     let mut stats = Stats::default();
     let mut rng = rng(101);
     let big = thorough();
-    let n_square = if big { 2600 } else { 150 };
-    let n_tall = if big { 1300 } else { 70 };
-    let n_wide = if big { 400 } else { 24 };
-    let n_rd = if big { 600 } else { 36 };
+    let n_square = if big { 15600 } else { 900 };
+    let n_tall = if big { 7800 } else { 420 };
+    let n_wide = if big { 2400 } else { 144 };
+    let n_rd = if big { 3600 } else { 216 };
     let mut run = 0i64;
     for i in 0..n_square {
         let fam = SQUARE_FAMILIES[i % SQUARE_FAMILIES.len()];
@@ -1031,6 +1031,24 @@ fn gen_exhaustive(path: &str) {
         run += 1;
         let w32 = code % 2 == 1;
         one_input(&mut out, &mut stats, &mut rng, run, "exh_sym3", a, cert, false, true, Some(w32), Some(0));
+    }
+    if big {
+        // every symmetric 3x3 matrix over {-2..2} (15 625) through Cholesky
+        for code in 0..15625u32 {
+            let mut c = code;
+            let mut v = [0i64; 6];
+            for x in v.iter_mut() {
+                *x = (c % 5) as i64 - 2;
+                c /= 5;
+            }
+            if v.iter().all(|x| x.abs() <= 1) {
+                continue; // already covered above
+            }
+            let a = vec![vec![v[0], v[1], v[2]], vec![v[1], v[3], v[4]], vec![v[2], v[4], v[5]]];
+            let cert = cert_json(&cert_full(&a), &None);
+            run += 1;
+            one_input(&mut out, &mut stats, &mut rng, run, "exh_sym3b", a, cert, false, true, Some(code % 2 == 1), Some(0));
+        }
     }
     let lim = if big { 3i64 } else { 2 };
     for a00 in -lim..=lim {
